@@ -315,6 +315,19 @@ def decodeRune (c : Nat) (r : Bytes) : Bytes × Bytes :=
     | _ => bad
   else bad
 
+/-- strings.ToValidUTF8(s, "\uFFFD") byte-wise as encoding/json does it: every byte that does not start a
+well-formed sequence becomes U+FFFD -/
+def sanitizeUtf8 : Nat → Bytes → Bytes
+  | 0, l => l
+  | _ + 1, [] => []
+  | f + 1, c :: r =>
+    if c < 128 then c :: sanitizeUtf8 f r
+    else
+      let (o, r') := decodeRune c r
+      o ++ sanitizeUtf8 f r'
+
+def validUtf8 (s : Bytes) : Bool := sanitizeUtf8 (s.length + 1) s == s
+
 def isOct (c : Nat) : Bool := 48 ≤ c && c ≤ 55
 
 /-- the loop of `unquote` after the opening quote; succeeds only if the terminating quote is
